@@ -578,6 +578,14 @@ fn build_world(s: &Setup) -> H {
             // insertions in a scrambled (deterministic) order, and for a quarter of the entries a remove + re-insert,
             // so that storages with internal indirection (dense vectors) are NOT in their identity layout.
             let order = scrambled(k, &s.stores[k]);
+            // ... and every other store has been filled and bulk-cleared once before (`Storage::clear`)
+            if scramble_key(k, 7777) % 2 == 0 {
+                for &j in order.iter().take(3) {
+                    let (i, v) = s.stores[k][j];
+                    st.insert(cur[i as usize], <C as HV>::mk(i, v ^ 0x55)).expect("setup: pre-insert");
+                }
+                st.clear();
+            }
             for &j in &order {
                 let (i, v) = s.stores[k][j];
                 st.insert(cur[i as usize], <C as HV>::mk(i, v)).expect("setup: insert");
@@ -595,6 +603,11 @@ fn build_world(s: &Setup) -> H {
     }
     let mut cs14 = ChangeSet::new();
     let mut cs15 = ChangeSet::new();
+    // the change sets have been used and cleared before, too
+    for &j in scrambled(14, &s.stores[14]).iter().take(3) { let (i, v) = s.stores[14][j]; cs14.add(cur[i as usize], v ^ 0x55); }
+    cs14.clear();
+    for &j in scrambled(15, &s.stores[15]).iter().take(2) { let (i, v) = s.stores[15][j]; cs15.add(cur[i as usize], v ^ 0x33); }
+    cs15.clear();
     for &j in &scrambled(14, &s.stores[14]) { let (i, v) = s.stores[14][j]; cs14.add(cur[i as usize], v); }
     for &j in &scrambled(15, &s.stores[15]) { let (i, v) = s.stores[15][j]; cs15.add(cur[i as usize], v); }
     // pending deletions: `Entities::delete` (= `Allocator::kill_atomic`) marks the entity in the `killed` set;
@@ -703,7 +716,7 @@ fn caps(out: &mut String) {
 #[derive(Clone, Copy, PartialEq, Debug)]
 pub enum Mode { Seq, Lend, LendFe, LendGet, Tree, Par, Unc }
 #[derive(Clone, Copy, PartialEq, Debug)]
-pub enum Via { Foreach, Map, Collect }
+pub enum Via { Foreach, Map, Collect, Count }
 #[derive(Clone, Copy, Debug)]
 pub enum Probe { H(u32, i32), U(u32) }
 
@@ -717,6 +730,8 @@ pub struct JoinOp {
     pub tree: String,
     pub pool: usize,
     pub via: Via,
+    /// set by `exec_op` from the shape: no member whose fetch writes, removes or emits events
+    pub members_read_only: bool,
 }
 fn mode_name(m: Mode) -> &'static str {
     match m { Mode::Seq => "seq", Mode::Lend => "lend", Mode::LendFe => "lendfe", Mode::LendGet => "lendget",
@@ -729,7 +744,7 @@ fn mode_of(s: &str) -> Option<Mode> {
 impl JoinOp {
     fn new(sid: &str, mode: Mode) -> Self {
         JoinOp { sid: sid.to_string(), mode, opts: Vec::new(), take: None, probes: Vec::new(),
-                 tree: String::new(), pool: 1, via: Via::Foreach }
+                 tree: String::new(), pool: 1, via: Via::Foreach, members_read_only: false }
     }
     /// add an option (also interprets it); Err on a malformed value
     fn opt(&mut self, k: &str, v: &str) -> Result<(), String> {
@@ -863,6 +878,11 @@ macro_rules! arm {
         $($pre)*
         let pool = pool_for($op.pool);
         let j = $e;
+        if let Via::Count = $op.via {
+            // `count()` is one more way to consume a parallel join (separate pass, see `exec_op`)
+            let c = pool.install(|| j.par_join().count());
+            let _ = write!($out, "{}", c);
+        } else {
         let v: Vec<(Option<u32>, String)> = match $op.via {
             Via::Foreach => {
                 let m: Mutex<Vec<(Option<u32>, String)>> = Mutex::new(Vec::new());
@@ -877,8 +897,10 @@ macro_rules! arm {
                 let items = pool.install(|| j.par_join().collect::<Vec<_>>());
                 items.into_iter().map(|mut item| visit_par(&mut item)).collect()
             }
+            Via::Count => unreachable!(),
         };
         finish_par(v, $out);
+        }
     }};
     (tree, $x:ident, $op:ident, $out:ident, { $($pre:tt)* }, $e:expr) => {{
         let mut done = false;
@@ -942,7 +964,25 @@ fn exec_op(h: &mut H, op: &JoinOp, out: &mut String) {
     let sh = find_shape(&op.sid).expect("unknown shape");
     print_op(op, sh, out);
     let mark = out.len();
+    let mut op2 = op.clone();
+    op2.members_read_only = sh.members.split_whitespace().all(|m| {
+        let m = m.trim_start_matches('?');
+        matches!(m.chars().next(), Some('s') | Some('n') | Some('e') | Some('r') | Some('B'))
+    });
+    let op = &op2;
+    // read-only parallel joins: `par_join().count()` first (a pass of its own), compared with the items delivered below
+    let counted: Option<usize> = if op.mode == Mode::Par && op.members_read_only {
+        let mut opc = op.clone();
+        opc.via = Via::Count;
+        let mut tmp = String::new();
+        let rc = catch_unwind(AssertUnwindSafe(|| (sh.run)(h, &opc, &mut tmp)));
+        if rc.is_ok() { tmp.trim().parse::<usize>().ok() } else { None }
+    } else { None };
     let r = catch_unwind(AssertUnwindSafe(|| (sh.run)(h, op, out)));
+    if let (Some(c), true) = (counted, r.is_ok()) {
+        let delivered = out[mark..].split_whitespace().next().and_then(|t| t.parse::<usize>().ok());
+        if delivered.is_some() && delivered != Some(c) { let _ = write!(out, " !count={}", c); }
+    }
     let hook_missing = out[mark..].starts_with("nohook");
     let with_post = matches!(op.mode, Mode::Seq | Mode::Lend | Mode::LendFe | Mode::Par | Mode::Tree);
     let ks = sh.mut_ks();
